@@ -60,6 +60,10 @@ ASSUMPTIONS = [
     'second point is only demanded where the exact Jacobian has the same nonzero pattern '
     '(maximum/minimum/max/min select different entries at different points - documented limitation '
     'of dynamic coloring, reported as an observation, not as a violation)',
+    'zero_first: the first linearization happens with every input exactly 0.0 and the second point '
+    'is demanded regardless of the value-dependent pattern at zero, except for expressions with '
+    'selection functions and for entries that are below 1e-21 when all inputs are 2.5e-10 '
+    '(not resolvable with the documented perturb_size=1e-9 / tol=1e-25 of the sparsity measurement)',
     '.T is only used on operands with ndim >= 2 (0-d ExecComp variables are passed to the '
     'expression as Python scalars, which have no .T; attribute access is outside the function table)',
 ]
@@ -169,7 +173,7 @@ SHAPES_Q = [(1,), (3,), (2, 2), ()]
 SHAPES_T = [(1,), (3,), (2, 2), (), (2, 3)]
 SHAPES_MAIN = [(1,), (3,), (2, 2)]
 
-OPTS_SINGLE = [{}, {'color': 'off'}, {'color': 'declared'}, {'color': 'partials_cs'}, {'diag': True},
+OPTS_SINGLE = [{}, {'zero_first': True}, {'zero_first': True, 'mode': 'rev'}, {'color': 'off'}, {'color': 'declared'}, {'color': 'partials_cs'}, {'diag': True},
                {'sbc': 'comp'}, {'sbc': 'var'}, {'units': 'comp'}, {'units': 'var'},
                {'decl': 'shape'}, {'decl': 'compshape'}, {'mode': 'rev'}, {'ivc': True}]
 OPTS_PAIRS = [{'diag': True, 'sbc': 'var'}, {'diag': True, 'units': 'comp'},
@@ -179,7 +183,7 @@ OPTS_PAIRS = [{'diag': True, 'sbc': 'var'}, {'diag': True, 'units': 'comp'},
               {'color': 'declared', 'sbc': 'var'}, {'color': 'declared', 'units': 'var'},
               {'diag': True, 'decl': 'shape'}, {'sbc': 'comp', 'mode': 'rev'},
               {'color': 'declared', 'decl': 'shape'}, {'color': 'partials_cs', 'decl': 'shape'}]
-OPTS_TWO_EXPR = [{}, {'color': 'off'}, {'color': 'declared'}, {'diag': True}, {'mode': 'rev'},
+OPTS_TWO_EXPR = [{}, {'zero_first': True}, {'color': 'off'}, {'color': 'declared'}, {'diag': True}, {'mode': 'rev'},
                  {'sbc': 'var'}, {'units': 'comp'}]
 
 
@@ -262,6 +266,17 @@ def _kvalue(kshape, rot):
     return L.family_values('posB', 4, kshape, rot + 3)
 
 
+_SELECT = ('maximum', 'minimum', 'fmax', 'fmin', 'max', 'min', 'abs')
+
+
+def _has_selection(t):
+    if isinstance(t, str):
+        return t in _SELECT
+    if isinstance(t, (tuple, list)):
+        return any(_has_selection(x) for x in t)
+    return False
+
+
 def reference(spec):
     """returns dict(status=..., points=[(label, env, [val per expr], [jac per expr])], ...)"""
     exprs, shapes, rot = spec['exprs'], spec['shapes'], spec.get('rot', 0)
@@ -270,6 +285,35 @@ def reference(spec):
     if spec.get('kshape') is not None:
         consts['k'] = _kvalue(tuple(spec['kshape']), rot)
     pts = []
+    zero_first = bool(spec.get('opt', {}).get('zero_first'))
+    selects = any(_has_selection(t) for t in exprs)
+    if zero_first:
+        # first linearization with every input exactly 0.0: the sparsity OpenMDAO measures there
+        # (on randomly perturbed inputs) must still be the structural one, so the second point is
+        # demanded whatever the value-dependent pattern at zero is
+        env0 = {n: np.zeros(tuple(shapes[n])) for n in names}
+        full = dict(consts)
+        full.update(env0)
+        try:
+            res = [L.jacobian(t, full, names) for t in exprs]
+        except L.Unsafe:
+            return {'status': 'no_safe_point'}
+        except L.Inadmissible:
+            return {'status': 'inadmissible'}
+        if selects:
+            return {'status': 'no_safe_point'}
+        # OpenMDAO measures sparsity on inputs perturbed by perturb_size (1e-9) with tolerance 1e-25
+        # (documented coloring defaults): an entry whose magnitude at that scale is below the
+        # tolerance (a product of >= 3 vanishing factors) cannot be resolved by design
+        envp = {n: np.full(tuple(shapes[n]), 2.5e-10) for n in names}
+        fullp = dict(consts)
+        fullp.update(envp)
+        try:
+            resp = [L.jacobian(t, fullp, names) for t in exprs]
+        except (L.Unsafe, L.Inadmissible):
+            return {'status': 'no_safe_point'}
+        zero_probe = resp
+        pts.append(('zeros', env0, [r[0] for r in res], [r[1] for r in res]))
     for label, env in L.palette_points(names, {n: tuple(s) for n, s in shapes.items()}, rot):
         full = dict(consts)
         full.update(env)
@@ -285,8 +329,11 @@ def reference(spec):
             # (max/min/maximum/... select different entries at different points)
             same = all(np.array_equal(r[1][n] != 0, q[n] != 0)
                        for r, q in zip(res, pts[0][3]) for n in names)
-            if not same:
+            if not same and not zero_first:
                 continue
+            if zero_first and any(np.any((r[1][n] != 0) & (np.abs(q[1][n]) < 1e-21))
+                                  for r, q in zip(res, zero_probe) for n in names):
+                return {'status': 'no_safe_point'}
         pts.append((label, env, [r[0] for r in res], [r[1] for r in res]))
         if len(pts) >= 2:
             break
